@@ -18,17 +18,21 @@
     scan_denotes                     scanned values = denotation
     whitespace_comment_invariance    two layouts of one sentence scan to equal values
     print_scan_fixpoint              scan (print (scan s)) = scan s
-  Proved (`Proved`; for the fixpoint `Plain`, the same without `nxA`): sentences of any length
-  whose values are scalars in the spellings of `Tok.proved`, or repetitions `nxA` of such a scalar — decimal 'i' integers with and without the suffix `i`, decimal 'h' integers,
-  characters raw or escaped, strings and quoted symbols with every escape sequence and any
+  Proved (`Proved`; for the fixpoint `Plain`: scalars only): sentences of any length whose values are
+  scalars in the spellings of `Tok.proved`, arrays `[ … ]` (nested to any depth, without open end) of
+  such values of one type, and repetitions `nxA` of a scalar or an array.  The scalar spellings: 'i' integers in decimal (with and
+  without the suffix `i`) and in hexadecimal (`0x2a`, `-0x2a`, `0x2A`, two's complement `0xffffffd6`),
+  decimal 'h' integers, characters raw or escaped, strings and quoted symbols with every escape sequence and any
   concatenation `"…"\ "…"`, identifiers, true/false/nil/inf/now/immediately, colours, MIDI, blobs —
   under EVERY layout: any white space, line breaks and comment lines in front of, between and
   behind the values, any white space between the parts of a string and between the bytes of a
   blob.  No bound on the number of values, parts, gaps or characters; induction over the token list.
-  Not proved, covered by the correspondence check and the oracle only: hex / octal spellings,
-  floats and doubles in every notation, upper-case colours, other blanks inside MIDI, `nxA` of
-  an array, `b ... c` ranges (integer and float), arrays with or without an open end; and
-  `print_scan_fixpoint` for values the printer compresses (`nxA`, five equal-typed values in a row).
+  Not proved, covered by the correspondence check and the oracle only: octal spellings, hex with
+  a suffix or for 'h',
+  floats and doubles in every notation, upper-case colours, other blanks inside MIDI,
+  `b ... c` ranges (integer and float) at top level and in arrays, arrays with an open end; and
+  `print_scan_fixpoint` for arrays and for values the printer compresses (`nxA`, five equal-typed
+  values in a row).
   Known finding C11-K1 (`scan_denotes_counterexample`): an unsuffixed octal literal is read as
   decimal; trigger `hasOctalPlain`.
 -/
@@ -91,9 +95,10 @@ def print_scan_fixpoint_statement : Prop :=
 
 /-! ### what is proved -/
 
-/-- the sentences for which the first three clauses are proved: every value is a scalar in one of
-    the spellings of `Tok.proved` (under the blanks the layout `L` puts inside it), or `nxA` with
-    such a scalar `A` and `1 ≤ n ≤ 2³¹-1` -/
+/-- the sentences for which the first three clauses are proved: every value is (`SVal.proved`) a
+    scalar in one of the spellings of `Tok.proved` (under the blanks the layout `L` puts inside it),
+    an array without open end whose elements are such values of one type (any white space between
+    them, nested to any depth), or `nxA` with a scalar or array `A` and `1 ≤ n ≤ 2³¹-1` -/
 def Proved (s : Sentence) (L : Layout) : Prop := provedFrom L 0 s
 
 /-- the same without `nxA`: the sentences for which `print_scan_fixpoint` is proved -/
@@ -127,8 +132,8 @@ theorem reads_proved (s : Sentence) (L : Layout) (h : Proved s L) : Reads (rende
         simp [render, valuesText, hl, this, e, gapsBytes_append]
     obtain ⟨g, tail, hr, ht⟩ := hform
     rw [hr]
-    exact ⟨by simpa [pCells] using countPrintedArgVals_empty g tail ht,
-      by simpa [pCells] using scanArgVals_empty g tail ht⟩
+    exact ⟨by simpa [pCells, pcellsList] using countPrintedArgVals_empty g tail ht,
+      by simpa [pCells, pcellsList] using scanArgVals_empty g tail ht⟩
   · have hlay := argsLay_proved L (trailBytes L.trail L.last) (tail_trail L.trail L.last) s 0 hs h
     have hcells := allCells_pArgs L 0 s
     have hr : render s L = gapsBytes L.lead ++ (valuesText L 0 s ++ trailBytes L.trail L.last) := by
@@ -228,6 +233,26 @@ theorem tok_no_trigger (bl : List Nat → Blank) (t : Tok) (hp : t.proved bl = t
   | int v base sfx => cases base <;> cases sfx <;> first | rfl | (simp [Tok.proved] at hp)
   | _ => rfl
 
+mutual
+theorem proved_noK1 : ∀ (bl : List Nat → Blank) (x : SVal), x.proved bl → x.hasOctalPlain = false
+  | bl, .val t, h => by
+    rw [proved_unfold_val] at h
+    simpa [SVal.hasOctalPlain] using tok_no_trigger _ t h.2
+  | bl, .rep n x, h => by
+    rw [proved_unfold_rep] at h
+    simpa [SVal.hasOctalPlain] using proved_noK1 _ x h.2.2.2
+  | bl, .range _ _, h => by simp [SVal.proved] at h
+  | bl, .arr es opn, h => by
+    simp only [SVal.proved] at h
+    simpa [SVal.hasOctalPlain] using provedElems_noK1 bl 1 es h.2.2
+theorem provedElems_noK1 : ∀ (bl : List Nat → Blank) (k : Nat) (es : List SVal), provedElems bl k es →
+    hasOctalPlainList es = false
+  | bl, k, [], _ => rfl
+  | bl, k, x :: r, h => by
+    simp only [provedElems] at h
+    simp [hasOctalPlainList, proved_noK1 _ x h.1, provedElems_noK1 bl (k + 1) r h.2]
+end
+
 theorem proved_no_trigger (L : Layout) : ∀ (s : Sentence) (i : Nat), provedFrom L i s → hasOctalPlainList s = false := by
   intro s
   induction s with
@@ -235,18 +260,7 @@ theorem proved_no_trigger (L : Layout) : ∀ (s : Sentence) (i : Nat), provedFro
   | cons x r ih =>
     intro i h
     obtain ⟨hx, hr⟩ := h
-    have : x.hasOctalPlain = false := by
-      cases x with
-      | val t => simp only [SVal.proved] at hx; simpa [SVal.hasOctalPlain] using tok_no_trigger _ t hx.2
-      | rep n y =>
-        cases y with
-        | val t => simp only [SVal.proved] at hx; simpa [SVal.hasOctalPlain] using tok_no_trigger _ t hx.2.2.2
-        | rep _ _ => simp [SVal.proved] at hx
-        | range _ _ => simp [SVal.proved] at hx
-        | arr _ _ => simp [SVal.proved] at hx
-      | range _ _ => simp [SVal.proved] at hx
-      | arr _ _ => simp [SVal.proved] at hx
-    simp [hasOctalPlainList, this, ih (i + 1) hr]
+    simp [hasOctalPlainList, proved_noK1 _ x hx, ih (i + 1) hr]
 
 /-- the proved part lies inside the statement with the trigger excluded -/
 theorem proved_not_K1 (s : Sentence) (L : Layout) (h : Proved s L) : hasOctalPlain s = false :=
@@ -307,19 +321,27 @@ theorem exPlain : Plain exSentence exLayout := by
 
 /-- the example with repetitions in front: `3x"bad luck" 1000x-7 …` -/
 def exSentenceRep : Sentence :=
-  .rep 3 (.val (.str false [[.raw 98, .raw 97, .raw 100], [.raw 32, .raw 108, .raw 117, .raw 99, .raw 107]])) ::
-  .rep 1000 (.val (.int (-7) .dec false)) :: .rep 2147483647 (.val (.kw .nil)) :: exSentence.drop 5
+  .rep 3 (.arr [.val (.str false [[.raw 98, .raw 97, .raw 100]]), .val (.str false [[.raw 108, .raw 117, .raw 99, .raw 107]])] false) ::
+  .arr [.arr [.val (.int 1 .dec false), .rep 1000 (.val (.int (-7) .dec true))] false, .arr [] false] false ::
+  .rep 2147483647 (.val (.int (-42) .hex2c false)) :: exSentence.drop 5
 
 def exLayoutRep : Layout := { L0 with blank := fun p => if p = [6, 0] then [.sp] else [] }
 
 theorem exProved : Proved exSentenceRep exLayoutRep := by
   unfold Proved exSentenceRep exSentence
-  simp only [List.drop_succ_cons, List.drop_zero, provedFrom, SVal.proved, and_true]
-  refine ⟨⟨?_, ?_, ?_, ?_⟩, ⟨?_, ?_, ?_, ?_⟩, ⟨?_, ?_, ?_, ?_⟩, ⟨?_, ?_⟩, ⟨?_, ?_⟩, ⟨?_, ?_⟩, ⟨?_, ?_⟩, ⟨?_, ?_⟩,
-    ⟨?_, ?_⟩, ⟨?_, ?_⟩⟩ <;> decide +kernel
+  simp only [List.drop_succ_cons, List.drop_zero, provedFrom, SVal.proved, provedElems, SVal.repeatable, and_true,
+    true_and]
+  refine ⟨⟨by decide, by decide, by decide +kernel, ⟨by decide +kernel, by decide +kernel⟩, by decide +kernel,
+      by decide +kernel⟩,
+    ⟨by decide +kernel, ⟨by decide +kernel, ⟨by decide +kernel, by decide +kernel⟩, by decide, by decide,
+      by decide +kernel, by decide +kernel⟩, by decide +kernel⟩,
+    ⟨by decide, by decide, by decide +kernel, by decide +kernel⟩,
+    ⟨by decide +kernel, by decide +kernel⟩, ⟨by decide +kernel, by decide +kernel⟩, ⟨by decide +kernel, by decide +kernel⟩,
+    ⟨by decide +kernel, by decide +kernel⟩, ⟨by decide +kernel, by decide +kernel⟩, ⟨by decide +kernel, by decide +kernel⟩,
+    ⟨by decide +kernel, by decide +kernel⟩⟩
 
 example : String.ofList ((render exSentenceRep exLayoutRep).map (fun b => Char.ofNat b.toNat)) =
-    "3x\"bad\"\\\" luck\" 1000x-7 2147483647xnil \"hi\\n\"\\\"\"\\\"\\\"\" \"\"S An_Identifier_12345 BLOB [2 0x72 0x74] now 123i #8badf00d" := by
+    "3x[\"bad\" \"luck\"] [[1 1000x-7i] []] 2147483647x0xffffffd6 \"hi\\n\"\\\"\"\\\"\\\"\" \"\"S An_Identifier_12345 BLOB [2 0x72 0x74] now 123i #8badf00d" := by
   decide +kernel
 
 /-- the hypotheses of all `_partial` theorems hold for a non-trivial sentence -/
